@@ -881,6 +881,18 @@ Proof.
       cbn. intros o Ho. right. rewrite Ho, Hk. exact Ix.
 Qed.
 
+Lemma pwf_delete cl k : pwf cl -> pwf (delete k cl).
+Proof.
+  intros W k' c H. destruct (decide (k = k')) as [->|N].
+  - rewrite lookup_delete in H. discriminate.
+  - rewrite lookup_delete_ne in H by exact N. apply W. exact H.
+Qed.
+Lemma p_is_own_true x d : p_is_own true x d = true -> exists c, x_clients x !! hash d = Some c /\ c_id c = d.
+Proof.
+  unfold p_is_own. destruct (plookup true (x_clients x) d) eqn:L; try discriminate.
+  intros _. apply plookup_own in L. eauto.
+Qed.
+
 (* Proxy.talk: what is handed to the connection names the packet's device (or a tagged one);
    what is forwarded upstream is the packet itself; a re-registration request changes nothing *)
 Lemma proxy_talk_spec x n tags x' r :
@@ -896,6 +908,10 @@ Proof.
   assert (U0 : exists u, x_up x = x_up x ++ u /\ Forall (fun o => o_dev o = l_dev n) u).
   { exists []. rewrite app_nil_r. split; [reflexivity|constructor]. }
   destruct (id_empty (l_dev n)). { injection H as <- <-. split; [exact W|]. split; [exact U0|exact Logic.I]. }
+  destruct ((l_pid n =? SvShutdown) && p_is_own true x (l_dev n)).
+  { injection H as <- <-. cbn [proxy_shutdown x_clients x_up]. split; [apply pwf_delete; exact W|]. split.
+    - eexists. split; [reflexivity|]. apply Forall_one. reflexivity.
+    - cbn. apply Forall_one. left. left. reflexivity. }
   assert (MAIN : forall x1 known, pwf (x_clients x1) ->
             (exists u, x_up x1 = x_up x ++ u /\ Forall (fun o => o_dev o = l_dev n) u) ->
             (forall c, x_clients x1 !! hash (l_dev n) = Some c -> c_id c = l_dev n) ->
@@ -970,6 +986,10 @@ Proof.
      (forall d, @None id = Some d -> d = l_dev n))).
   { split; [exact W|]. split; [exact U0|]. split; [constructor|]. split; [intros d [= <-]; auto|discriminate]. }
   destruct (id_empty (l_dev n)). { injection H as <- <-. split; [exact W|]. split; [exact U0|exact Logic.I]. }
+  destruct ((l_pid n =? SvShutdown) && p_is_own true x (l_dev n)).
+  { injection H as <- <-. cbn [proxy_shutdown x_clients x_up]. split; [apply pwf_delete; exact W|]. split.
+    - eexists. split; [reflexivity|]. apply Forall_one. reflexivity.
+    - split; [apply Forall_one; reflexivity|]. split; intros d; discriminate. }
   assert (MAIN : forall x1, pwf (x_clients x1) -> x_up x1 = x_up x ->
             (forall c, x_clients x1 !! hash (l_dev n) = Some c -> c_id c = l_dev n) ->
             match x_clients x1 !! hash (l_dev n) with
@@ -1024,8 +1044,8 @@ Lemma proxy_unknown_gets_register x n tags :
   forall o, proxy_talk_sub x n o = (x, ASub None 0 (Some (l_dev n)) []).
 Proof.
   intros NE U NH. pose proof (plookup_not_own _ _ U) as X.
-  unfold proxy_talk, proxy_talk_g, proxy_talk_sub, proxy_talk_sub_g. rewrite NE, NH. cbn [negb].
-  destruct (plookup true (x_clients x) (l_dev n)) as [|c|c]; auto. exfalso. eapply X. reflexivity.
+  unfold proxy_talk, proxy_talk_g, proxy_talk_sub, proxy_talk_sub_g, p_is_own. rewrite NE, NH. cbn [negb].
+  destruct (plookup true (x_clients x) (l_dev n)) as [|c|c]; rewrite ?andb_false_r; auto. exfalso. eapply X. reflexivity.
 Qed.
 
 (* with a collision the second device can never register at the proxy either *)
@@ -1034,8 +1054,8 @@ Lemma proxy_collider_cannot_register x n tags c :
   proxy_talk x n tags = (x, ARegister (l_dev n)) /\
   forall o, proxy_talk_sub x n o = (x, ASub None 0 (Some (l_dev n)) []).
 Proof.
-  intros NE L D. unfold proxy_talk, proxy_talk_g, proxy_talk_sub, proxy_talk_sub_g, plookup. rewrite NE, L.
-  apply id_eqb_neq in D. rewrite D. cbn. auto.
+  intros NE L D. unfold proxy_talk, proxy_talk_g, proxy_talk_sub, proxy_talk_sub_g, p_is_own, plookup. rewrite NE, L.
+  apply id_eqb_neq in D. rewrite D. cbn. rewrite andb_false_r. auto.
 Qed.
 
 Definition pans_ok (o : pop) (x x' : proxy) (r : ans) : Prop :=
@@ -1557,7 +1577,7 @@ Qed.
 
 Lemma cstep_routes_current w o : routes_current w -> routes_current (cstep w o).1.
 Proof.
-  intros INV. destruct o as [d j|d|d tags|d|d pid job|d]; cbn [cstep].
+  intros INV. destruct o as [d j|d|d tags|d|d pid job|d lbl pid job|d|d]; cbn [cstep].
   - destruct (chan_open_key w d); [exact INV|].
     destruct (talk 0 (w_tbl w) (Single (Leaf d SvHello j BHello) [])) as [[t' e] r]. exact INV.
   - destruct (server_session (w_tbl w) d); [|exact INV].
@@ -1571,6 +1591,9 @@ Proof.
     + apply (chan_resolve_err _ _ _ _ _ R INV).
   - destruct (chan_open_key w d) as [hk|]; [|exact INV]. cbn. apply chan_stop_spec. exact INV.
   - destruct (server_session (w_tbl w) d); exact INV.
+  - destruct (server_session (w_tbl w) d); exact INV.
+  - destruct (chan_open_key w d) as [hk|]; [|exact INV]. destruct (w_tbl w !! hk) as [h|]; [|exact INV].
+    destruct (is_nil (s_out h)); [exact INV|]. destruct (next_false h) as [h' l]. exact INV.
   - destruct (chan_open_key w d); [exact INV|].
     destruct (talk 0 (w_tbl w) (Single (Leaf d 0 0 BEmpty) [])) as [[t' e] r]. exact INV.
 Qed.
@@ -1763,3 +1786,155 @@ Lemma fwd_demo_run :
   (frun 100 idA (fw0 idA) fwd_demo).2 =
     [[]; [ETouch idC idC; ENew idC; ETouch idC idC]; []; []; [ETouch idC idC; EHandle idC idC 6; EHandle idC idC 7]].
 Proof. split; vm_compute; reflexivity. Qed.
+
+(* ------------------------------------------------------------------------- *)
+(* 9. the Proxy only ever drops the entry of the device that announced its shutdown;
+      packets written without a Device                                          *)
+
+Lemma pids_mono_insert_fresh cl k c : cl !! k = None -> pids_mono cl (<[k := c]> cl).
+Proof.
+  intros H k' x Hx. destruct (decide (k = k')) as [->|N]; [congruence|].
+  rewrite lookup_insert_ne by exact N. eauto.
+Qed.
+
+(* every step of the Proxy keeps every client entry (possibly with another queue), unless the step is
+   a packet with ID SvShutdown of a registered client: then exactly that client's entry goes *)
+Definition pop_leaf (o : pop) : leaf := match o with PTalk n _ => n | PTalkSub n _ => n | PAccept n => n end.
+Definition pop_accept (o : pop) : bool := match o with PAccept _ => true | _ => false end.
+
+Lemma pstep_keeps x o x' r :
+  pstep x o = (x', r) -> pwf (x_clients x) ->
+  pids_mono (x_clients x) (x_clients x') \/
+  (pop_accept o = false /\ l_pid (pop_leaf o) = SvShutdown /\
+   (exists c, x_clients x !! hash (l_dev (pop_leaf o)) = Some c /\ c_id c = l_dev (pop_leaf o)) /\
+   x_clients x' = delete (hash (l_dev (pop_leaf o))) (x_clients x)).
+Proof.
+  unfold pstep, pstep_g. intros H W. destruct o as [n tags|n b|n]; cbn [pop_leaf pop_accept].
+  - (* talk *)
+    unfold proxy_talk_g in H. destruct (id_empty (l_dev n)). { injection H as <- <-. left. apply pids_mono_refl. }
+    destruct ((l_pid n =? SvShutdown) && p_is_own true x (l_dev n)) eqn:SD.
+    { injection H as <- <-. apply andb_true_iff in SD as [S1 S2]. right. split; [reflexivity|].
+      split; [apply Z.eqb_eq; exact S1|]. split; [apply p_is_own_true; exact S2|reflexivity]. }
+    left.
+    assert (MAIN : forall x1 known, pwf (x_clients x1) -> pids_mono (x_clients x) (x_clients x1) ->
+              match x_clients x1 !! hash (l_dev n) with
+              | None => (x1, AErr EOther)
+              | Some c0 =>
+                match presolve_tags (c_id c0) (x_clients x1) tags [] [] with
+                | (cl2, add, Some err) => (Proxy cl2 (x_up x1), AErr err)
+                | (cl2, add, None) =>
+                  match cl2 !! hash (l_dev n) with
+                  | None => (Proxy cl2 (x_up x1), AErr EOther)
+                  | Some c =>
+                    let up := if is_nop n then x_up x1 else x_up x1 ++ [(l_dev n, l_pid n, l_job n)] in
+                    let '(c', l) := pnext_false c in
+                    (Proxy (<[hash (l_dev n) := c']> cl2) up, AReply known (l ++ add))
+                  end
+                end
+              end = (x', r) -> pids_mono (x_clients x) (x_clients x')).
+    { clear H. intros x1 known W1 M1 H.
+      destruct (x_clients x1 !! hash (l_dev n)) as [c0|] eqn:L0; [|injection H as <- <-; exact M1].
+      destruct (presolve_tags (c_id c0) (x_clients x1) tags [] []) as [[cl2 add] rr] eqn:PT.
+      eapply presolve_tags_spec with (N := []) (T := tags) in PT as (W2 & M2 & _); [|exact W1|apply incl_refl|constructor].
+      destruct rr as [err|]. { injection H as <- <-. cbn. eapply pids_mono_trans; eauto. }
+      destruct (cl2 !! hash (l_dev n)) as [c|] eqn:L2. 2:{ injection H as <- <-. cbn. eapply pids_mono_trans; eauto. }
+      destruct (pnext_false c) as [c' l] eqn:X. injection H as <- <-. cbn.
+      destruct (W2 _ _ L2) as (_ & Q). apply pnext_false_spec in X as (X1 & _); [|exact Q].
+      eapply pids_mono_trans; [exact M1|]. eapply pids_mono_trans; [exact M2|]. eapply pids_mono_update; eauto. }
+    destruct (plookup true (x_clients x) (l_dev n)) as [|c|c] eqn:L.
+    + apply plookup_free in L. destruct (negb (l_pid n =? SvHello)). { injection H as <- <-. apply pids_mono_refl. }
+      eapply MAIN in H; [exact H| |]; cbn [x_clients].
+      * apply pwf_insert; auto. apply Forall_one. reflexivity.
+      * apply pids_mono_insert_fresh. exact L.
+    + eapply MAIN in H; [exact H|exact W|apply pids_mono_refl].
+    + injection H as <- <-. apply pids_mono_refl.
+  - (* talkSub *)
+    unfold proxy_talk_sub_g in H. destruct (id_empty (l_dev n)). { injection H as <- <-. left. apply pids_mono_refl. }
+    destruct ((l_pid n =? SvShutdown) && p_is_own true x (l_dev n)) eqn:SD.
+    { injection H as <- <-. apply andb_true_iff in SD as [S1 S2]. right. split; [reflexivity|].
+      split; [apply Z.eqb_eq; exact S1|]. split; [apply p_is_own_true; exact S2|reflexivity]. }
+    left.
+    assert (MAIN : forall x1, pwf (x_clients x1) -> pids_mono (x_clients x) (x_clients x1) ->
+              match x_clients x1 !! hash (l_dev n) with
+              | None => (x1, AErr EOther)
+              | Some c =>
+                let up := if is_nop n then x_up x1 ++ [(l_dev n, l_pid n, l_job n)] else x_up x1 in
+                if b then (Proxy (x_clients x1) up, ASub (Some (c_id c)) (hash (l_dev n)) None [])
+                else let '(c', l) := pnext_true c in
+                     (Proxy (<[hash (l_dev n) := c']> (x_clients x1)) up, ASub (Some (c_id c)) (hash (l_dev n)) None l)
+              end = (x', r) -> pids_mono (x_clients x) (x_clients x')).
+    { clear H. intros x1 W1 M1 H. destruct (x_clients x1 !! hash (l_dev n)) as [c|] eqn:L; [|injection H as <- <-; exact M1].
+      cbv zeta in H. destruct b; [injection H as <- <-; exact M1|].
+      destruct (pnext_true c) as [c' l] eqn:X. injection H as <- <-. cbn.
+      destruct (W1 _ _ L) as (_ & Q). apply pnext_true_spec in X as (X1 & _); [|exact Q].
+      eapply pids_mono_trans; [exact M1|]. eapply pids_mono_update; eauto. }
+    destruct (plookup true (x_clients x) (l_dev n)) as [|c|c] eqn:L.
+    + apply plookup_free in L. destruct (negb (l_pid n =? SvHello)). { injection H as <- <-. apply pids_mono_refl. }
+      eapply MAIN in H; [exact H| |]; cbn [x_clients].
+      * apply pwf_insert; auto. apply Forall_one. reflexivity.
+      * apply pids_mono_insert_fresh. exact L.
+    + eapply MAIN in H; [exact H|exact W|apply pids_mono_refl].
+    + injection H as <- <-. apply pids_mono_refl.
+  - (* accept *)
+    left. destruct (proxy_accept_g true x n) as [x1 b] eqn:P. injection H as <- <-.
+    unfold proxy_accept_g in P. destruct (plookup true (x_clients x) (l_dev n)) as [|c0|c0] eqn:L.
+    + injection P as <- <-. apply pids_mono_refl.
+    + apply plookup_own in L as [L E]. destruct (is_nop n); injection P as <- <-; [apply pids_mono_refl|].
+      cbn. eapply pids_mono_update; eauto.
+    + injection P as <- <-. apply pids_mono_refl.
+Qed.
+
+(* in words: an entry that is gone after a step was the entry of the device the packet named, and the
+   packet was that device's SvShutdown *)
+Lemma proxy_prunes_only_named x o x' r k c :
+  pstep x o = (x', r) -> pwf (x_clients x) -> x_clients x !! k = Some c -> x_clients x' !! k = None ->
+  pop_accept o = false /\ l_pid (pop_leaf o) = SvShutdown /\ c_id c = l_dev (pop_leaf o) /\ k = hash (l_dev (pop_leaf o)).
+Proof.
+  intros H W L N. destruct (pstep_keeps _ _ _ _ H W) as [M|(A & B & (c0 & L0 & E0) & D)].
+  - destruct (M _ _ L) as (c' & L' & _). congruence.
+  - rewrite D in N. destruct (decide (k = hash (l_dev (pop_leaf o)))) as [->|NE].
+    + rewrite L0 in L. injection L as <-. auto.
+    + rewrite lookup_delete_ne in N by auto. congruence.
+Qed.
+
+(* a packet without a Device written to d's session: where it lands (as for KSend) *)
+Lemma send_as_lands w d lbl pid job :
+  routes_current w ->
+  exists q, (q = hash d \/ (w_route w !! hash d = Some q /\ exists l, w_subs w !! q = Some l /\ In (hash d) l)) /\
+            forall k, k <> q -> w_tbl (cstep w (KSendAs d lbl pid job)).1 !! k = w_tbl w !! k.
+Proof.
+  intros INV. cbn [cstep]. destruct (server_session (w_tbl w) d) as [s|].
+  - destruct (w_route w !! hash d) as [hk|] eqn:R.
+    + exists hk. split; [right; split; [reflexivity|]; apply (INV _ _ R)|].
+      intros k N. cbn. unfold push_out. destruct (w_tbl w !! hk); [|reflexivity].
+      unfold table in *. rewrite lookup_insert_ne; auto.
+    + exists (hash d). split; [auto|]. intros k N. cbn. unfold push_out. destruct (w_tbl w !! hash d); [|reflexivity].
+      unfold table in *. rewrite lookup_insert_ne; auto.
+  - exists (hash d). split; [auto|]. reflexivity.
+Qed.
+
+(* what leaves a queue carries the device it was queued with: picking a packet up never relabels it
+   (the only packet next makes up itself is the NoP naming the session) *)
+Lemma next_false_keeps_labels s s' l o :
+  next_false s = (s', l) -> In o l -> In o (s_out s) \/ o = (s_id s, 0, 0).
+Proof.
+  unfold next_false, take_next. destruct (s_out s) as [|x q].
+  - intros [= <- <-] [<-|[]]. auto.
+  - destruct (o_crypt x && o_names x (s_id s)); intros [= <- <-] I; left.
+    + destruct I as [<-|[]]. left. reflexivity.
+    + exact I.
+Qed.
+Lemma drain_keeps_labels w d w' k l o :
+  cstep w (KDrain d) = (w', AReply k l) -> In o l ->
+  exists hk h, chan_open_key w d = Some hk /\ w_tbl w !! hk = Some h /\ In o (s_out h).
+Proof.
+  cbn [cstep]. destruct (chan_open_key w d) as [hk|]; [|discriminate].
+  destruct (w_tbl w !! hk) as [h|] eqn:L; [|discriminate].
+  destruct (s_out h) as [|x q] eqn:Q; [discriminate|]. cbn [is_nil].
+  destruct (next_false h) as [h' l'] eqn:X. intros [= <- <- <-] I.
+  exists hk, h. split; [reflexivity|]. split; [exact L|].
+  unfold next_false in X. rewrite Q in X. unfold take_next in X. rewrite Q.
+  destruct (o_crypt x && o_names x (s_id h)); injection X as <- <-.
+  - destruct I as [<-|[]]. left. reflexivity.
+  - exact I.
+Qed.
